@@ -215,6 +215,22 @@ def inverse_root_selection(ctx, rep, rule: str) -> None:
             ok = fwd and vals == table
             detail = f"forwards (override, orders): {fwd}; default rule on orders 0..3: {vals} (documented {table})"
         rep.ob(rule, f"root-selection:default-rule:{cname}", ok, m_.loc(), detail, sample=True)
+    # the orders are the orders of the BLOCKS (after merging and splitting), not of the parameters they were cut from
+    base = repo.cls(base_q)
+    defs = [(f_, n_) for f_ in base.methods.values() for n_ in A.walk_no_nested(f_.node) if isinstance(n_, (ast.Assign, ast.AnnAssign)) and n_.value is not None and any(isinstance(t, ast.Attribute) and t.attr == "_local_order_list" for t in (n_.targets if isinstance(n_, ast.Assign) else [n_.target]))]
+    ok = False
+    detail = f"{len(defs)} definition(s) of self._local_order_list"
+    if len(defs) == 1:
+        f_, n_ = defs[0]
+        v = n_.value
+        while isinstance(v, ast.Call) and isinstance(v.func, ast.Name) and v.func.id in ("tuple", "list") and len(v.args) == 1:
+            v = v.args[0]
+        if isinstance(v, (ast.GeneratorExp, ast.ListComp)) and len(v.generators) == 1 and isinstance(v.generators[0].target, ast.Name) and not v.generators[0].ifs:
+            g = v.generators[0]
+            blocks = [p_ for p_ in f_.params if p_ == "block_list"]
+            ok = A.tnorm(v.elt) == f"{g.target.id}.ndim" and bool(blocks) and A.expanded(f_.node, g.iter) == blocks[0]
+        detail = f"self._local_order_list = `{ast.unparse(n_.value)[:80]}`; documented: the order (number of dimensions) of every block of block_list"
+    rep.ob(rule, "root-selection:orders-are-block-orders", ok, defs[0][0].loc(defs[0][1]) if defs else base.module.relpath, detail, sample=True)
 
 
 def run(ctx, rep) -> None:
